@@ -97,6 +97,10 @@ pub struct ScriptIndex {
 pub struct ScriptSpec {
     pub indexes: Vec<ScriptIndex>,
     pub steps: Vec<Step>,
+    /// one `Writer` value per index kept for the whole script (across steps, transactions, commits and aborts)
+    /// instead of a fresh `Writer::new` per call
+    #[serde(default)]
+    pub reuse_writers: bool,
 }
 
 impl ScriptSpec {
@@ -224,6 +228,73 @@ fn check_open<D: Distance>(
     Ok(())
 }
 
+// ------------------------------------------------------------------------------------------------
+// Writer values: fresh per call, or one per (index, metric type) kept for the whole script
+
+thread_local! {
+    static WRITERS: std::cell::RefCell<Option<std::collections::HashMap<(u16, std::any::TypeId), Box<dyn std::any::Any>>>> =
+        const { std::cell::RefCell::new(None) };
+}
+
+struct WriterScope;
+
+impl WriterScope {
+    fn enter(reuse: bool) -> WriterScope {
+        WRITERS.with(|w| *w.borrow_mut() = if reuse { Some(Default::default()) } else { None });
+        WriterScope
+    }
+}
+
+impl Drop for WriterScope {
+    fn drop(&mut self) {
+        WRITERS.with(|w| *w.borrow_mut() = None);
+    }
+}
+
+fn writer_for<D: Distance + 'static>(raw: heed::Database<Bytes, Bytes>, isp: &IndexSpec) -> std::rc::Rc<Writer<D>> {
+    WRITERS.with(|w| {
+        let mut w = w.borrow_mut();
+        match w.as_mut() {
+            None => std::rc::Rc::new(Writer::<D>::new(db_for::<D>(raw), isp.index, isp.dims)),
+            Some(map) => map
+                .entry((isp.index, std::any::TypeId::of::<D>()))
+                .or_insert_with(|| Box::new(std::rc::Rc::new(Writer::<D>::new(db_for::<D>(raw), isp.index, isp.dims))))
+                .downcast_ref::<std::rc::Rc<Writer<D>>>()
+                .expect("writer cache type")
+                .clone(),
+        }
+    })
+}
+
+/// The writer by value (prepare_changing_distance consumes it).
+fn take_writer<D: Distance + 'static>(raw: heed::Database<Bytes, Bytes>, isp: &IndexSpec) -> Writer<D> {
+    let cached = WRITERS.with(|w| w.borrow_mut().as_mut().and_then(|map| map.remove(&(isp.index, std::any::TypeId::of::<D>()))));
+    cached
+        .and_then(|b| b.downcast::<std::rc::Rc<Writer<D>>>().ok())
+        .and_then(|rc| std::rc::Rc::try_unwrap(*rc).ok())
+        .unwrap_or_else(|| Writer::<D>::new(db_for::<D>(raw), isp.index, isp.dims))
+}
+
+fn put_writer<D: Distance + 'static>(index: u16, w: Writer<D>) {
+    WRITERS.with(|c| {
+        if let Some(map) = c.borrow_mut().as_mut() {
+            map.insert((index, std::any::TypeId::of::<D>()), Box::new(std::rc::Rc::new(w)));
+        }
+    });
+}
+
+/// Keeps only the writers typed with the metric each index currently has (a caller whose metric change was aborted
+/// has no writer of the old type left and makes a new one).
+fn retain_current_writers(spec: &ScriptSpec, st: &[IxState]) {
+    let keep: Vec<(u16, std::any::TypeId)> =
+        st.iter().enumerate().map(|(i, s)| (spec.indexes[i].spec.index, with_metric!(s.metric, D => std::any::TypeId::of::<D>()))).collect();
+    WRITERS.with(|c| {
+        if let Some(map) = c.borrow_mut().as_mut() {
+            map.retain(|k, _| keep.contains(k));
+        }
+    });
+}
+
 fn check_staleness(
     raw: heed::Database<Bytes, Bytes>,
     rtxn: &RoTxn,
@@ -240,7 +311,7 @@ fn check_staleness(
         let m = s.metric;
         let want_need = s.stale || s.built.is_none();
         let got_need = with_metric!(m, D => {
-            let w = Writer::<D>::new(db_for::<D>(raw), isp.index, isp.dims);
+            let w = writer_for::<D>(raw, isp);
             catch(|| w.need_build(rtxn))
         });
         match got_need {
@@ -267,7 +338,7 @@ fn store_check(raw: heed::Database<Bytes, Bytes>, rtxn: &RoTxn, spec: &ScriptSpe
         let isp = &spec.indexes[i].spec;
         let m = to_index_model(s);
         with_metric!(s.metric, D => {
-            let w = Writer::<D>::new(db_for::<D>(raw), isp.index, isp.dims);
+            let w = writer_for::<D>(raw, isp);
             interp::compare_store_writer::<D>(s.metric, &w, rtxn, isp, &m, &[0, 5, u32::MAX])
         })?;
     }
@@ -291,6 +362,11 @@ pub struct ScriptOutcome {
 /// Executes a script. With `append_as_add`, every Append/AppendHigh that the model expects to be
 /// accepted is executed with add_item instead (the twin of C19).
 pub fn run_script(spec: &ScriptSpec, cfg: &ScriptCfg, append_as_add: bool, stats: &mut CaseStats) -> Result<ScriptOutcome, Fail> {
+    // declared first: dropped last, after the environment... the writers hold no borrow, only Copy handles
+    let _writers = WriterScope::enter(spec.reuse_writers);
+    if spec.reuse_writers {
+        stats.flag("writers_reused");
+    }
     let tenv = TestEnv::new(DEFAULT_MAP).map_err(Fail::Infra)?;
     let env = &tenv.env;
     let raw: heed::Database<Bytes, Bytes> = {
@@ -339,6 +415,7 @@ pub fn run_script(spec: &ScriptSpec, cfg: &ScriptCfg, append_as_add: bool, stats
                     } else {
                         w.abort();
                         st = saved.clone();
+                        retain_current_writers(spec, &st);
                         let rtxn = env.read_txn().map_err(|e| Fail::Infra(format!("{e}")))?;
                         let d = raw_dump(&rtxn, raw).map_err(Fail::Infra)?;
                         if let Some(before) = &txn_start_dump {
@@ -377,7 +454,7 @@ pub fn run_script(spec: &ScriptSpec, cfg: &ScriptCfg, append_as_add: bool, stats
             }
         }
         let need_before = if cfg.rejected {
-            Some(with_metric!(metric, D => Writer::<D>::new(db_for::<D>(raw), isp.index, isp.dims).need_build(w)).map_err(|e| Fail::Infra(format!("need_build: {e:?}")))?)
+            Some(with_metric!(metric, D => writer_for::<D>(raw, isp).need_build(w)).map_err(|e| Fail::Infra(format!("need_build: {e:?}")))?)
         } else {
             None
         };
@@ -386,7 +463,7 @@ pub fn run_script(spec: &ScriptSpec, cfg: &ScriptCfg, append_as_add: bool, stats
             Step::Add { slot, vseed, .. } => {
                 let id = isp.id_of(*slot);
                 let v = vector(isp.class, *vseed, isp.dims);
-                let r = with_metric!(metric, D => catch(|| Writer::<D>::new(db_for::<D>(raw), isp.index, isp.dims).add_item(w, id, &v)));
+                let r = with_metric!(metric, D => catch(|| writer_for::<D>(raw, isp).add_item(w, id, &v)));
                 match r {
                     Ok(Ok(())) => {}
                     other => return violation("op:add", format!("{ctx}: add_item({id}) = {:?}", other.map(|r| r.map_err(|e| format!("{e:?}"))).map_err(|p| p.message))),
@@ -412,7 +489,7 @@ pub fn run_script(spec: &ScriptSpec, cfg: &ScriptCfg, append_as_add: bool, stats
                 let expect_ok = last.map_or(true, |l| newkey[..] > l[..]);
                 let use_add = append_as_add && expect_ok;
                 let r = with_metric!(metric, D => catch(|| {
-                    let wr = Writer::<D>::new(db_for::<D>(raw), isp.index, isp.dims);
+                    let wr = writer_for::<D>(raw, isp);
                     if use_add { wr.add_item(w, id, &v) } else { wr.append_item(w, id, &v) }
                 }));
                 match r {
@@ -446,7 +523,7 @@ pub fn run_script(spec: &ScriptSpec, cfg: &ScriptCfg, append_as_add: bool, stats
                     _ => (0u32..).map(|i| 900_000_007u32.wrapping_mul(i + 1)).find(|i| !st[ix].items.contains_key(i)).unwrap(),
                 };
                 let existed = st[ix].items.contains_key(&id);
-                let r = with_metric!(metric, D => catch(|| Writer::<D>::new(db_for::<D>(raw), isp.index, isp.dims).del_item(w, id)));
+                let r = with_metric!(metric, D => catch(|| writer_for::<D>(raw, isp).del_item(w, id)));
                 match r {
                     Ok(Ok(b)) if b == existed => {}
                     other => {
@@ -470,7 +547,7 @@ pub fn run_script(spec: &ScriptSpec, cfg: &ScriptCfg, append_as_add: bool, stats
                     rejected_step = true;
                 }
                 for id in ids {
-                    let r = with_metric!(metric, D => catch(|| Writer::<D>::new(db_for::<D>(raw), isp.index, isp.dims).del_item(w, id)));
+                    let r = with_metric!(metric, D => catch(|| writer_for::<D>(raw, isp).del_item(w, id)));
                     match r {
                         Ok(Ok(true)) => {}
                         other => {
@@ -490,7 +567,7 @@ pub fn run_script(spec: &ScriptSpec, cfg: &ScriptCfg, append_as_add: bool, stats
                 let v = vec![0.25f32; len];
                 let is_add = matches!(step, Step::AddBadLen { .. });
                 let r = with_metric!(metric, D => catch(|| {
-                    let wr = Writer::<D>::new(db_for::<D>(raw), isp.index, isp.dims);
+                    let wr = writer_for::<D>(raw, isp);
                     if is_add { wr.add_item(w, id, &v) } else { wr.append_item(w, id, &v) }
                 }));
                 match r {
@@ -510,7 +587,25 @@ pub fn run_script(spec: &ScriptSpec, cfg: &ScriptCfg, append_as_add: bool, stats
                 if st[ix].built == Some(metric) && !st[ix].stale {
                     let r = with_metric!(metric, D => catch(|| {
                         let reader = Reader::<D>::open(w, isp.index, db_for::<D>(raw))?;
-                        reader.nns(3).by_vector(w, &v)
+                        // the refusal does not depend on what else was asked for: a pure function of (len, step
+                        // index) picks the count, the budget and the filter
+                        let shape = len + si;
+                        let count = [3usize, 0, 1, usize::MAX, 2][shape % 5];
+                        let mut q = reader.nns(count);
+                        match (shape / 5) % 3 {
+                            1 => {
+                                q.search_k(std::num::NonZeroUsize::new(1).unwrap());
+                            }
+                            2 => {
+                                q.search_k(std::num::NonZeroUsize::new(usize::MAX).unwrap());
+                            }
+                            _ => {}
+                        }
+                        let empty = roaring::RoaringBitmap::new();
+                        if (shape / 15) % 2 == 1 {
+                            q.candidates(&empty);
+                        }
+                        q.by_vector(w, &v)
                     }));
                     match r {
                         Ok(Err(Error::InvalidVecDimension { expected, received })) if expected == isp.dims && received == len => {
@@ -527,7 +622,7 @@ pub fn run_script(spec: &ScriptSpec, cfg: &ScriptCfg, append_as_add: bool, stats
                 rejected_step = true;
             }
             Step::Clear { .. } => {
-                let r = with_metric!(metric, D => catch(|| Writer::<D>::new(db_for::<D>(raw), isp.index, isp.dims).clear(w)));
+                let r = with_metric!(metric, D => catch(|| writer_for::<D>(raw, isp).clear(w)));
                 match r {
                     Ok(Ok(())) => {}
                     other => return violation("op:clear", format!("{ctx}: clear = {:?}", other.map(|r| r.map_err(|e| format!("{e:?}"))).map_err(|p| p.message))),
@@ -560,7 +655,7 @@ pub fn run_script(spec: &ScriptSpec, cfg: &ScriptCfg, append_as_add: bool, stats
                 let n_items = st[ix].items.len();
                 let bound = poll_bound(n_items, n_trees.unwrap_or_else(|| interp::auto_trees(n_items, isp.dims)).max(st[ix].prev_trees));
                 let out = with_metric!(metric, D => {
-                    let wr = Writer::<D>::new(db_for::<D>(raw), isp.index, isp.dims);
+                    let wr = writer_for::<D>(raw, isp);
                     do_build::<D>(&wr, w, &b, bound)
                 });
                 match out {
@@ -612,7 +707,7 @@ pub fn run_script(spec: &ScriptSpec, cfg: &ScriptCfg, append_as_add: bool, stats
                 let to = *to;
                 let r = with_metric!(metric, D => {
                     with_metric!(to, ND => catch(|| {
-                        Writer::<D>::new(db_for::<D>(raw), isp.index, isp.dims).prepare_changing_distance::<ND>(w).map(|_| ())
+                        take_writer::<D>(raw, isp).prepare_changing_distance::<ND>(w).map(|nw| put_writer::<ND>(isp.index, nw))
                     }))
                 });
                 match r {
@@ -643,6 +738,7 @@ pub fn run_script(spec: &ScriptSpec, cfg: &ScriptCfg, append_as_add: bool, stats
             Step::Commit | Step::Abort => unreachable!(),
         }
         // ---- oracles after the step
+        retain_current_writers(spec, &st);
         let w = wtxn.as_mut().unwrap();
         if cfg.isolation || cfg.rejected {
             let after = raw_dump(w, raw).map_err(Fail::Infra)?;
@@ -684,7 +780,7 @@ pub fn run_script(spec: &ScriptSpec, cfg: &ScriptCfg, append_as_add: bool, stats
                 if *before != after {
                     return violation("rejected:changed", format!("{ctx}: a rejected / no-op call changed the database: {}", first_diff(before, &after)));
                 }
-                let need_after = with_metric!(st[ix].metric, D => Writer::<D>::new(db_for::<D>(raw), isp.index, isp.dims).need_build(w)).map_err(|e| Fail::Infra(format!("need_build: {e:?}")))?;
+                let need_after = with_metric!(st[ix].metric, D => writer_for::<D>(raw, isp).need_build(w)).map_err(|e| Fail::Infra(format!("need_build: {e:?}")))?;
                 if Some(need_after) != need_before {
                     return violation("rejected:need-build", format!("{ctx}: need_build changed from {need_before:?} to {need_after} by a rejected call"));
                 }
@@ -808,7 +904,7 @@ fn check_metric_change(
     // API view under the new metric
     let m = to_index_model(s);
     with_metric!(to, D => {
-        let w = Writer::<D>::new(db_for::<D>(raw), isp.index, isp.dims);
+        let w = writer_for::<D>(raw, isp);
         match w.need_build(rtxn) {
             Ok(true) => Ok(()),
             other => violation(sig, format!("{ctx}: need_build = {:?} after a metric change", other.map_err(|e| format!("{e:?}")))),
@@ -842,6 +938,10 @@ pub struct ScriptGen {
     pub split_after: Vec<Option<usize>>,
     pub n_trees: Vec<Option<usize>>,
     pub edge_ids: bool,
+    /// the script starts with this many additions of consecutive ids to index 0 (pools must be at least as large),
+    /// a build and a commit; then, per a generated mode: nothing / every one of them overwritten / every one deleted;
+    /// the generated steps follow
+    pub bulk: Option<(usize, usize)>,
 }
 
 fn script_index_numbers(n: usize, adjacent: bool) -> BoxedStrategy<Vec<u16>> {
@@ -869,6 +969,30 @@ fn script_index_numbers(n: usize, adjacent: bool) -> BoxedStrategy<Vec<u16>> {
 }
 
 pub fn script(g: &ScriptGen) -> BoxedStrategy<ScriptSpec> {
+    match g.bulk {
+        None => script_plain(g),
+        Some((lo, hi)) => (script_plain(g), lo..=hi, 0u8..3, any::<u32>(), any::<u64>())
+            .prop_map(|(mut spec, n, mode, vseed0, rng_seed)| {
+                let pool = spec.indexes[0].spec.ids.len();
+                let n = n.min(pool);
+                let slot = |i: usize| ((i << 16).div_ceil(pool)).min(65535) as u16;
+                let mut steps: Vec<Step> = (0..n).map(|i| Step::Add { ix: 0, slot: slot(i), vseed: vseed0.wrapping_add(i as u32) }).collect();
+                steps.push(Step::Build { ix: 0, n_trees: Some(2), split_after: None, rng_seed });
+                steps.push(Step::Commit);
+                match mode {
+                    1 => steps.extend((0..n).map(|i| Step::Add { ix: 0, slot: slot(i), vseed: vseed0.wrapping_add(7_000_000 + i as u32) })),
+                    2 => steps.extend((0..n).map(|i| Step::Del { ix: 0, slot: slot(i) })),
+                    _ => {}
+                }
+                steps.append(&mut spec.steps);
+                spec.steps = steps;
+                spec
+            })
+            .boxed(),
+    }
+}
+
+fn script_plain(g: &ScriptGen) -> BoxedStrategy<ScriptSpec> {
     let g = g.clone();
     (g.n_indexes.0..=g.n_indexes.1)
         .prop_flat_map(move |n| {
@@ -929,7 +1053,7 @@ pub fn script(g: &ScriptGen) -> BoxedStrategy<ScriptSpec> {
                 push(w[13], Just(Step::Abort).boxed());
                 push(w[14], (ixs.clone(), any::<u64>()).prop_map(|(ix, rng_seed)| Step::BuildAs { ix, rng_seed }).boxed());
                 let step = proptest::strategy::Union::new_weighted(arms);
-                (idx, vec(step, g.steps.0..=g.steps.1)).prop_map(|(indexes, steps)| ScriptSpec { indexes, steps })
+                (idx, vec(step, g.steps.0..=g.steps.1), any::<bool>()).prop_map(|(indexes, steps, reuse_writers)| ScriptSpec { indexes, steps, reuse_writers })
             })
         })
         .boxed()
